@@ -5,7 +5,7 @@ use blots_core::ast::{Expr, Spanned, SpannedExpr};
 use blots_core::environment::Environment;
 use blots_core::error::RuntimeError;
 use blots_core::expressions::{evaluate_pairs, pairs_to_expr, pairs_to_expr_with_comments};
-use blots_core::formatter::{format_expr, join_statements_with_spacing};
+use blots_core::formatter::{format_statement, join_statements_with_spacing};
 use blots_core::functions::clear_function_call_stats;
 use blots_core::heap::{Heap, HeapPointer, HeapValue, IterablePointer};
 use blots_core::parser::{Rule, get_pairs};
@@ -342,11 +342,11 @@ pub fn format_source_lib(src: &str, width: Option<usize>) -> Result<String, Stri
                     Rule::output_declaration => {
                         let e = pairs_to_expr_with_comments(first.into_inner()).map_err(|e| format!("ast: {}", e))?;
                         let o = Spanned::dummy(Expr::Output { expr: Box::new(e) });
-                        format_expr(&o, width)
+                        format_statement(&o, width, stmts.is_empty())
                     }
                     _ => {
                         let e = pairs_to_expr_with_comments(first.into_inner()).map_err(|e| format!("ast: {}", e))?;
-                        format_expr(&e, width)
+                        format_statement(&e, width, stmts.is_empty())
                     }
                 };
                 let fin = match inner.next() {
